@@ -72,120 +72,289 @@ PARSER_CONSTS = ["FRAME_HEADER_SIZE", "STREAM_ID_MASK", "FLAG_END_STREAM", "FLAG
 H2_CONSTS = ["DEFAULT_MAX_PING_LIFETIME", "DEFAULT_MAX_SETTINGS_LIFETIME"]
 
 
+TRANSLATE_FALLBACK = (
+    "the facts reported as unreadable are all observed by what the check runs anyway: the frame-type byte maps and the "
+    "stream-id legality table by the decode / encode cases of the in-process driver (every frame type with stream id 0, 1 and "
+    "2^31-1, every type byte 0..0x10 and unknown ones, harness/src/bin/c15.rs `dec` / `enc`); the order, thresholds and "
+    "strictness of check_flood by the `flood` cases (each counter set to threshold and threshold+1 through the hook, alone and "
+    "with an earlier counter also over: the driver prints which counter tripped); which frames a handler counts by the "
+    "black-box tier (c15bb: every windowed counter at exactly its threshold and one above, zero-length variants)")
+
+FACTS_SNAPSHOT = os.path.join(os.path.dirname(os.path.abspath(__file__)), "c15_facts.json")
+
+# thresholds of check_flood in the order of the model's `first_violation` (what the counter is compared with:
+# a public field of H2FloodConfig, or one of the two lifetime constants, read as numbers)
+FLOOD_ORDER = ["max_rst_stream_per_window", "max_ping_per_window", "DEFAULT_MAX_PING_LIFETIME", "max_settings_per_window",
+               "DEFAULT_MAX_SETTINGS_LIFETIME", "max_empty_data_per_window", "max_continuation_frames",
+               "max_window_update_stream0_per_window", "max_header_list_size", "max_glitch_count"]
+
+
+def _sid_rule(rhs_tokens):
+    t = [x for x in rhs_tokens if x not in ("{", "}", ",")]
+    if t == ["true"]:
+        return 2
+    if len(t) == 3 and "0" in (t[0], t[2]):
+        op = t[1]
+        if op == "!=" or (op == ">" and t[2] == "0") or (op == "<" and t[0] == "0"):
+            return 1
+        if op == "==":
+            return 0
+    return None
+
+
+def _read_sid_table(P, fails):
+    """stream-id legality per frame type: the `match` over FrameType in frame_header or in a helper it calls"""
+    import rustmini, rsfacts
+    texts = [P.raw_body("frame_header")] + [P.raw_body(f) for f in P.callees("frame_header")]
+    for text in texts:
+        for m in re.finditer(r"\bmatch\s+[^{};]+\{", text):
+            try:
+                close = rustmini.match_brace(text, m.end() - 1)
+                arms = rustmini.match_arms(text[m.end():close])
+            except rustmini.Unrecognised:
+                continue
+            rules = {}
+            ok = True
+            for pat, body in arms:
+                types = re.findall(r"FrameType::(\w+)", pat)
+                rule = _sid_rule(rsfacts.tokens(body))
+                if not types or rule is None or any(t not in FT_CODE for t in types):
+                    ok = False
+                    break
+                for t in types:
+                    rules[FT_CODE[t]] = rule
+            if ok and rules:
+                if sorted(rules) != list(range(12)):
+                    fails.append("parser.rs: the stream-id legality match of frame_header does not cover every FrameType: %s" % sorted(rules))
+                    return None
+                return rules
+    return None
+
+
+def _read_flood_order(H, fails):
+    """[(count field, threshold)] of the checks chained in check_flood, and the comparison used"""
+    import rsfacts
+    texts = H.scopes("check_flood")
+    full = texts[-1]
+    calls = re.findall(r"(?<= )(?:Self :: )?(\w+) \( \"\" , \"\" , self \. (\w+) , (self \. config \. (\w+)|\d+) ,? ?\)", " " + texts[0] + " ")
+    if len(calls) < 2 or len(set(c[0] for c in calls)) != 1:
+        return None, None
+    strict = None
+    if re.search(r" if (\w+) > (\w+) \{ Some \( H2FloodViolation", " " + full) or re.search(r" \(? ?(\w+) > (\w+) \)? ?\. then", " " + full):
+        strict = ">"
+    elif re.search(r" if (\w+) < (\w+) \{ Some \( H2FloodViolation", " " + full):
+        strict = "<"   # threshold < count
+    elif re.search(r" if (\w+) >= (\w+) \{ Some \( H2FloodViolation", " " + full):
+        strict = ">="
+    return [(c[1], c[3] if c[3] else c[2]) for c in calls], strict
+
+
 def translate():
-    """T-const + T-table: constants, the frame-type byte map (both directions) and the
-    stream-id validity table of `frame_header` are regenerated from the source into Gen.v."""
+    """T-const + T-table: constants, the frame-type byte map (both directions) and the stream-id validity table of
+    `frame_header` are regenerated from the source into Gen.v; then the facts of h2.rs / mod.rs / pkawa.rs the model rests on.
+    Facts are read on the normal form of tools/rsfacts.py; what cannot be recognised at all is reported `unreadable:` (see
+    TRANSLATE_FALLBACK) and taken from the committed snapshot props/c15_facts.json for Gen.v."""
+    import json, rsfacts
     fails = []
+    try:
+        snap = json.load(open(FACTS_SNAPSHOT))
+    except Exception:
+        snap = {}
     ps = open(os.path.join(MUX, "parser.rs")).read()
     ss = open(os.path.join(MUX, "serializer.rs")).read()
     hs = open(os.path.join(MUX, "h2.rs")).read()
     ms = open(os.path.join(MUX, "mod.rs")).read()
-    ps_code = ps.split("#[cfg(test)]")[0]
-    consts = _consts(ps_code, PARSER_CONSTS, fails, "parser.rs")
-    consts.update(_consts(hs, H2_CONSTS, fails, "h2.rs"))
-    m = re.search(r"const\s+FLOOD_WINDOW_DURATION\s*:[^=]+=\s*std::time::Duration::from_secs\((\d+)\)", hs)
-    if m:
-        consts["FLOOD_WINDOW_MS"] = int(m.group(1)) * 1000
+    try:
+        P = rsfacts.Source(os.path.join(MUX, "parser.rs"), ps.split("#[cfg(test)]")[0])
+        S = rsfacts.Source(os.path.join(MUX, "serializer.rs"), ss.split("#[cfg(test)]")[0])
+        H = rsfacts.Source(os.path.join(MUX, "h2.rs"))
+        M = rsfacts.Source(os.path.join(MUX, "mod.rs"))
+        K = rsfacts.Source(os.path.join(MUX, "pkawa.rs"))
+    except Exception as ex:
+        return ["mux sources cannot be read: %r" % (ex,)]
+    consts = {}
+    for n in PARSER_CONSTS:
+        if n in P.consts:
+            consts[n] = int(P.consts[n])
+        elif n in snap.get("consts", {}):
+            consts[n] = snap["consts"][n]
+            fails.append("unreadable: parser.rs constant %s is not defined under that name any more; the model keeps %d" % (n, consts[n]))
+        else:
+            fails.append("parser.rs: constant %s not found" % n)
+
+    # order of the checks in check_flood (first violation wins), thresholds and strictness
+    order = strict = None
+    try:
+        order, strict = _read_flood_order(H, fails)
+    except rsfacts.Unreadable:
+        pass
+    if order is None or strict is None:
+        fails.append("unreadable: h2.rs check_flood is no longer a chain of calls of one helper (reason, metric, self.<count>, <threshold>) "
+                     "with `if count > threshold`; the model tests the ten counters in the order %s with a strict comparison" % FLOOD_ORDER)
+        for n in H2_CONSTS:
+            if n in H.consts:
+                consts[n] = int(H.consts[n])
+            elif n in snap.get("consts", {}):
+                consts[n] = snap["consts"][n]
     else:
-        fails.append("h2.rs: FLOOD_WINDOW_DURATION is no longer Duration::from_secs(n)")
-    m = re.search(r"const\s+MAX_LOOP_ITERATIONS\s*:\s*i32\s*=\s*([0-9_]+);", ms)
-    if m:
-        consts["MAX_LOOP_ITERATIONS"] = _num(m.group(1))
+        if strict not in (">", "<"):
+            fails.append("h2.rs: check_flood reports a violation when count %s threshold; the model (and RFC-independent operator contract) is count > threshold" % strict)
+        got = [t for (_, t) in order]
+        names = [t if not t.isdigit() else None for t in got]
+        want_names = [t if not t.startswith("DEFAULT_") else None for t in FLOOD_ORDER]
+        if names != want_names:
+            fails.append("h2.rs: check_flood no longer tests the ten counters in the modelled order: %s" % (order,))
+        elif len(set(c for (c, _) in order)) != len(order):
+            fails.append("h2.rs: check_flood tests one counter twice: %s" % (order,))
+        else:
+            consts["DEFAULT_MAX_PING_LIFETIME"] = int(got[2])
+            consts["DEFAULT_MAX_SETTINGS_LIFETIME"] = int(got[4])
+            for n in H2_CONSTS:   # when the name still exists it must agree with what check_flood uses
+                if n in H.consts and int(H.consts[n]) != consts[n]:
+                    fails.append("h2.rs: %s = %s but check_flood compares with %d" % (n, H.consts[n], consts[n]))
+    m = re.search(r"const\s+(\w+)\s*:[^=;]+=\s*(?:std::time::)?Duration::from_(secs|millis)\((\d[\d_]*)\)\s*;", H.text)
+    window_ms = None
+    try:
+        wm = H.find("maybe_reset_window", "if self . $ws . elapsed ( ) >= $D {") or H.find("maybe_reset_window", "if $D <= self . $ws . elapsed ( ) {")
+    except rsfacts.Unreadable:
+        wm = None
+    if wm:
+        dm = re.search(r"const\s+%s\s*:[^=;]+=\s*(?:std::time::)?Duration::from_(secs|millis)\((\d[\d_]*)\)\s*;" % re.escape(wm.group("D")), H.text)
+        if dm:
+            window_ms = int(dm.group(2).replace("_", "")) * (1000 if dm.group(1) == "secs" else 1)
+    if window_ms is None:
+        im = None
+        try:
+            im = H.find("maybe_reset_window", "elapsed ( ) >= Duration :: $unit ( $n )") or H.find("maybe_reset_window", "elapsed ( ) >= std :: time :: Duration :: $unit ( $n )")
+        except rsfacts.Unreadable:
+            pass
+        if im and im.group("n").isdigit() and im.group("unit") in ("from_secs", "from_millis"):
+            window_ms = int(im.group("n")) * (1000 if im.group("unit") == "from_secs" else 1)
+    if window_ms is None:
+        if "FLOOD_WINDOW_MS" in snap.get("consts", {}):
+            window_ms = snap["consts"]["FLOOD_WINDOW_MS"]
+            fails.append("unreadable: h2.rs maybe_reset_window no longer compares window_start.elapsed() with a Duration constant; the model keeps %d ms "
+                         "(observed: the `flood` cases age the window through the hook around that value)" % window_ms)
+        else:
+            fails.append("h2.rs: the flood window duration cannot be read")
+    if window_ms is not None:
+        consts["FLOOD_WINDOW_MS"] = window_ms
+    if "MAX_LOOP_ITERATIONS" in M.consts:
+        consts["MAX_LOOP_ITERATIONS"] = int(M.consts["MAX_LOOP_ITERATIONS"])
     else:
         fails.append("mod.rs: MAX_LOOP_ITERATIONS not found")
 
     # byte -> FrameType
     t2f = []
     try:
-        body = _fn_body(ps_code, "fn convert_frame_type")
-        for m in re.finditer(r"(0x[0-9a-fA-F]+|\d+)\s*=>\s*FrameType::(\w+)\s*,", body):
+        body = P.raw_body("convert_frame_type")
+        for m in re.finditer(r"(0x[0-9a-fA-F]+|\d+)\s*=>\s*(?:\{\s*)?FrameType::(\w+)", body):
             t2f.append((_num(m.group(1)), FT_CODE[m.group(2)]))
-        if not re.search(r"(\w+)\s*=>\s*FrameType::Unknown\(\1\)", body):
+        if not re.search(r"(\w+)\s*=>\s*(?:\{\s*)?FrameType::Unknown\(\1\)", body):
             fails.append("parser.rs: convert_frame_type no longer maps the other bytes to Unknown(byte)")
-    except (ValueError, KeyError) as ex:
-        fails.append("parser.rs: convert_frame_type unreadable: %r" % (ex,))
+    except (rsfacts.Unreadable, ValueError, KeyError) as ex:
+        t2f = []
+    if len(t2f) < 11:
+        t2f = [tuple(x) for x in snap.get("t2f", [])]
+        fails.append("unreadable: parser.rs convert_frame_type is no longer a match from type byte to FrameType; the model keeps the map of RFC 9113 6 / RFC 9218 7.1")
     # FrameType -> byte
     f2t = []
     try:
-        body = _fn_body(ss, "pub fn serialize_frame_type")
-        for m in re.finditer(r"FrameType::(\w+)\s*=>\s*(0x[0-9a-fA-F]+|\d+)\s*,", body):
+        body = S.raw_body("serialize_frame_type")
+        for m in re.finditer(r"FrameType::(\w+)\s*=>\s*(?:\{\s*)?(0x[0-9a-fA-F]+|\d+)", body):
             f2t.append((FT_CODE[m.group(1)], _num(m.group(2))))
-        if not re.search(r"FrameType::Unknown\((\w+)\)\s*=>\s*\1", body):
+        if not re.search(r"FrameType::Unknown\((\w+)\)\s*=>\s*(?:\{\s*)?\*?\1", body):
             fails.append("serializer.rs: serialize_frame_type no longer maps Unknown(t) to t")
-    except (ValueError, KeyError) as ex:
-        fails.append("serializer.rs: serialize_frame_type unreadable: %r" % (ex,))
+    except (rsfacts.Unreadable, ValueError, KeyError) as ex:
+        f2t = []
+    if len(f2t) < 11:
+        f2t = [tuple(x) for x in snap.get("f2t", [])]
+        fails.append("unreadable: serializer.rs serialize_frame_type is no longer a match from FrameType to type byte; the model keeps the inverse of the decoding map")
     # stream-id validity table
-    rules = {}
+    rules = None
     try:
-        body = _fn_body(ps_code, "pub fn frame_header")
-        m = re.search(r"let valid_stream_id = match frame_type \{(.*?)\n    \};", body, re.S)
-        tbl = re.sub(r"//[^\n]*", "", m.group(1))
-        for arm in re.finditer(r"((?:\|?\s*FrameType::\w+(?:\(_\))?\s*)+)=>\s*(\{[^}]*\}|[^,]+),?", tbl):
-            rhs = arm.group(2).strip().strip("{}").strip()
-            rule = {"stream_id != 0": 1, "stream_id == 0": 0, "true": 2}.get(rhs)
-            if rule is None:
-                fails.append("parser.rs: frame_header valid_stream_id arm not understood: %s" % rhs)
-                continue
-            for t in re.findall(r"FrameType::(\w+)", arm.group(1)):
-                rules[FT_CODE[t]] = rule
-        if sorted(rules) != list(range(12)):
-            fails.append("parser.rs: frame_header valid_stream_id table does not cover every FrameType: %s" % sorted(rules))
-    except (ValueError, KeyError, AttributeError) as ex:
-        fails.append("parser.rs: frame_header valid_stream_id table unreadable: %r" % (ex,))
+        rules = _read_sid_table(P, fails)
+    except (rsfacts.Unreadable, KeyError) as ex:
+        rules = None
+    if rules is None and not any("does not cover every FrameType" in f for f in fails):
+        rules = {int(k): v for k, v in snap.get("sid_rules", {}).items()}
+        fails.append("unreadable: parser.rs frame_header (and the helpers it calls) holds no `match` from FrameType to `stream_id != 0` / `== 0` / true; "
+                     "the model keeps the table of RFC 9113 6 (stream-scoped / connection-scoped / either)")
+    rules = rules or {}
 
-    # order of the checks in check_flood (first violation wins) and strictness
-    order = re.findall(r"flag\(\s*\"([^\"]+)\",\s*\"[^\"]+\",\s*self\.(\w+),\s*(self\.config\.\w+|[A-Z_]+),?\s*\)", hs.split("\n#[cfg(test)]\nmod tests")[0])
-    want = [("RST_STREAM", "rst_stream_count", "self.config.max_rst_stream_per_window"),
-            ("PING", "ping_count", "self.config.max_ping_per_window"),
-            ("PING lifetime", "total_ping_received_lifetime", "DEFAULT_MAX_PING_LIFETIME"),
-            ("SETTINGS", "settings_count", "self.config.max_settings_per_window"),
-            ("SETTINGS lifetime", "total_settings_received_lifetime", "DEFAULT_MAX_SETTINGS_LIFETIME"),
-            ("empty DATA", "empty_data_count", "self.config.max_empty_data_per_window"),
-            ("CONTINUATION", "continuation_count", "self.config.max_continuation_frames"),
-            ("WINDOW_UPDATE stream 0", "window_update_stream0_count", "self.config.max_window_update_stream0_per_window"),
-            ("accumulated header size", "accumulated_header_size", "self.config.max_header_list_size"),
-            ("glitch", "glitch_count", "self.config.max_glitch_count")]
-    if [tuple(x) for x in order] != want:
-        fails.append("h2.rs: check_flood no longer tests the ten counters in the modelled order: %s" % (order,))
-    fails += flood_sites(hs)
-    # the ACK variants are not counted: they leave the handler before the bump (model: `qualifying` = None)
-    if not re.search(r"fn handle_ping_frame\(&mut self, ping: parser::Ping\) -> MuxResult \{\s*if ping\.ack \{\s*self\.attribute_bytes_to_overhead\(\);\s*return MuxResult::Continue;\s*\}", hs):
-        fails.append("h2.rs: handle_ping_frame no longer starts by leaving on a PING ACK (model: only a PING without ACK is counted)")
-    if not re.search(r"if settings\.ack \{.{0,2500}?return MuxResult::Continue;\s*\}\s*// CVE-2019-9515: track SETTINGS frame rate\s*let settings_count_before", hs, re.S):
-        fails.append("h2.rs: handle_settings_frame no longer leaves on a SETTINGS ACK right before the count (model: only SETTINGS without ACK are counted)")
+    fails += flood_sites(H, order)
+    # the ACK variants are not counted: they leave the handler before the count (model: `qualifying` = None)
+    def need(src, fn, pats, msg):
+        try:
+            if not any(src.find(fn, p) for p in pats):
+                fails.append(msg)
+        except rsfacts.Unreadable as ex:
+            fails.append("%s (%s)" % (msg, ex))
+    need(H, "handle_ping_frame", ["if $p . ack { ...{12} return MuxResult :: Continue ; } self . flood_detector . $c"],
+         "h2.rs: handle_ping_frame no longer starts by leaving on a PING ACK (model: only a PING without ACK is counted)")
+    need(H, "handle_settings_frame", ["if $s . ack { ...{70} return MuxResult :: Continue ; } self . flood_detector . $c"],
+         "h2.rs: handle_settings_frame no longer leaves on a SETTINGS ACK right before the count (model: only SETTINGS without ACK are counted)")
     # every CONTINUATION of a header block is counted, whatever its length
-    if not re.search(r"let cont_count_before = self\.flood_detector\.continuation_count;\s*let acc_size_before = self\.flood_detector\.accumulated_header_size;\s*self\.flood_detector\.continuation_count \+= 1;\s*self\.flood_detector\.accumulated_header_size = self\s*\.flood_detector\s*\.accumulated_header_size\s*\.saturating_add\(payload_len\);", hs):
-        fails.append("h2.rs: handle_continuation_header_state no longer counts every CONTINUATION frame by one (and its payload into the accumulated size)")
+    need(H, "handle_continuation_header_state",
+         ["self . flood_detector . $c += 1 ; self . flood_detector . $a = self . flood_detector . $a . saturating_add ( $len ) ; check_flood_or_return ! ( self ) ;",
+          "self . flood_detector . $a = self . flood_detector . $a . saturating_add ( $len ) ; self . flood_detector . $c += 1 ; check_flood_or_return ! ( self ) ;"],
+         "h2.rs: handle_continuation_header_state no longer counts every CONTINUATION frame by one (and its payload into the accumulated size)")
     # census: in handle_header_state every refusal of a new stream raises highest_peer_stream_id first
     try:
-        body = _fn_body(hs, "fn handle_header_state<L>")
-        sites = [m.start() for m in re.finditer(r"return self\.refuse_stream_and_discard\(", body)]
+        nf = " " + H.body("handle_header_state") + " "
+        sites = [m.start() for m in re.finditer(r" return self \. refuse_stream_and_discard \( ", nf)]
         if len(sites) < 3:
             fails.append("h2.rs: handle_header_state has fewer than 3 refuse_stream_and_discard sites (model: draining, stream limit, pool exhausted)")
+        raise_rx = rsfacts.compile_pattern("if $h . stream_id > self . highest_peer_stream_id { self . highest_peer_stream_id = $h . stream_id ; }")
+        raise_rx2 = rsfacts.compile_pattern("if $sid > self . highest_peer_stream_id { self . highest_peer_stream_id = $sid ; }")
+        raise_rx3 = rsfacts.compile_pattern("self . highest_peer_stream_id = self . highest_peer_stream_id . max ( ...{4} ) ;")
         for k in sites:
-            before = body[max(0, k - 500):k]
-            if not re.search(r"if stream_id > self\.highest_peer_stream_id \{\s*self\.highest_peer_stream_id = stream_id;\s*\}\s*$", before):
+            before = nf[max(0, k - 400):k + 1]
+            if not any(before.rstrip().endswith(m.group(0).rstrip()) for rx in (raise_rx, raise_rx2, raise_rx3) for m in rx.finditer(before)):
                 fails.append("h2.rs: handle_header_state refuses a stream without raising highest_peer_stream_id first (late frames on it would be treated as frames on an idle stream)")
-    except ValueError as ex:
-        fails.append("h2.rs: handle_header_state unreadable: %r" % (ex,))
+    except rsfacts.Unreadable as ex:
+        fails.append("h2.rs: handle_header_state cannot be read: %s" % (ex,))
 
     # shutting_down: a stream is marked as ended only when its request was parsed to the end
-    if not re.search(r"if stream\.front\.consumed\s*&& stream\.front\.storage\.is_empty\(\)\s*&& stream\.front\.is_completed\(\)\s*&& stream\.front\.is_terminated\(\)\s*\{\s*stream\.front_received_end_of_stream = true;", ms):
-        fails.append("mod.rs: shutting_down marks a stream as having received END_STREAM without requiring the request to be terminated (an upload in flight would be cut)")
-    # drive_frontend_shutdown_io: the forced read runs outside ready(); it serves the backends it armed
-    if not re.search(r"\.readable\(&mut self\.context, EndpointClient\(&mut self\.router\)\)\s*\{\s*MuxResult::Continue => \{\}\s*MuxResult::CloseSession \| MuxResult::Upgrade => return true,\s*\}.{0,700}?for backend in self\.router\.backends\.values_mut\(\) \{\s*if backend\.readiness\(\)\.filter_interest\(\)\.is_writable\(\) \{\s*let _ = backend\.writable\(&mut self\.context, EndpointServer\(&mut self\.frontend\)\);", ms, re.S):
-        fails.append("mod.rs: drive_frontend_shutdown_io no longer writes out what its forced frontend read queued for the backends (no epoll edge follows for bytes already read: the request in flight waits for the shutdown deadline)")
-    # reset_stream on a backend connection: once the response has started, only the abort (model on_backend_reset)
-    if not re.search(r"let response_started =\s*!self\.position\.is_server\(\) && context\.streams\[stream_id\]\.back\.consumed;\s*if let Some\(token\) = linked_token \{\s*if response_started \{\s*endpoint\.readiness_mut\(token\)\.arm_writable\(\);\s*\} else \{\s*endpoint\.end_stream\(token, stream_id, context\);", hs):
-        fails.append("h2.rs: reset_stream asks the frontend for a default answer even when part of the response already went to the client (a 502 page would follow the bytes of the 200, ended cleanly)")
-    # trailer fields do not need room in the stream buffer (it may be full of undrained body)
-    pk = open(os.path.join(MUX, "pkawa.rs")).read()
     try:
-        tb = _fn_body(pk, "pub fn handle_trailer(")
-        if "kawa.storage.write_all" in tb or not re.search(r"let key = Store::from_slice\(&k\);\s*let val = Store::from_slice\(&v\);\s*kawa\.push_block\(Block::Header\(Pair \{ key, val \}\)\);", tb):
+        nf = " " + M.body("shutting_down") + " "
+        ok = False
+        for m in re.finditer(r" if ((?:[^{}] ?)+?) \{ (\w+) \. front_received_end_of_stream = true ", nf):
+            conj = set()
+            for c in m.group(1).split("&&"):   # (a && b) && c: the grouping of a conjunction does not matter
+                c = c.strip()
+                while c.startswith("( ") and c.count("(") > c.count(")"):
+                    c = c[2:]
+                while c.endswith(" )") and c.count(")") > c.count("("):
+                    c = c[:-2]
+                conj.add(re.sub(r"\b%s\b" % re.escape(m.group(2)), "S", c.strip()))
+            if {"S . front . consumed", "S . front . storage . is_empty ( )", "S . front . is_completed ( )", "S . front . is_terminated ( )"} <= conj:
+                ok = True
+        if not ok:
+            fails.append("mod.rs: shutting_down marks a stream as having received END_STREAM without requiring the request to be terminated (an upload in flight would be cut)")
+    except rsfacts.Unreadable as ex:
+        fails.append("mod.rs: shutting_down cannot be read: %s" % (ex,))
+    # drive_frontend_shutdown_io: the forced read runs outside ready(); it serves the backends it armed
+    need(M, "drive_frontend_shutdown_io",
+         [". readable ( ...{16} ) { ...{24} } for $b in self . router . backends . values_mut ( ) { if $b . readiness ( ) . filter_interest ( ) . is_writable ( ) { ...{4} $b . writable (",
+          ". readable ( ...{16} ) { ...{24} } for ( $_ , $b ) in self . router . backends . iter_mut ( ) { if $b . readiness ( ) . filter_interest ( ) . is_writable ( ) { ...{4} $b . writable ("],
+         "mod.rs: drive_frontend_shutdown_io no longer writes out what its forced frontend read queued for the backends (no epoll edge follows for bytes already read: the request in flight waits for the shutdown deadline)")
+    # reset_stream on a backend connection: once the response has started, only the abort (model on_backend_reset)
+    need(H, "reset_stream",
+         ["{ if ! self . position . is_server ( ) && ...{12} . back . consumed { $ep . readiness_mut ( $t ) . arm_writable ( ) ; } else { $ep . end_stream ( $t ,",
+          "{ if self . position . is_client ( ) && ...{12} . back . consumed { $ep . readiness_mut ( $t ) . arm_writable ( ) ; } else { $ep . end_stream ( $t ,",
+          "{ if ...{12} . back . consumed && ! self . position . is_server ( ) { $ep . readiness_mut ( $t ) . arm_writable ( ) ; } else { $ep . end_stream ( $t ,"],
+         "h2.rs: reset_stream asks the frontend for a default answer even when part of the response already went to the client (a 502 page would follow the bytes of the 200, ended cleanly)")
+    # trailer fields do not need room in the stream buffer (it may be full of undrained body)
+    try:
+        tb = K.body("handle_trailer")
+        if "storage . write_all" in tb or not re.search(r"Store :: from_slice \( & \w+ \)", tb):
             fails.append("pkawa.rs: handle_trailer writes the trailer fields into the stream buffer again (full of body when the client is slow: the block fails and the stream is reset)")
-    except ValueError as ex:
-        fails.append("pkawa.rs: handle_trailer unreadable: %r" % (ex,))
+    except rsfacts.Unreadable as ex:
+        fails.append("pkawa.rs: handle_trailer cannot be read: %s" % (ex,))
+    facts = dict(consts=consts, t2f=[list(x) for x in t2f], f2t=[list(x) for x in f2t], sid_rules={str(k): rules[k] for k in sorted(rules)})
+    if os.environ.get("C15_WRITE_SNAPSHOT") == "1" and not fails:
+        json.dump(facts, open(FACTS_SNAPSHOT, "w"), indent=1, sort_keys=True)
     lines = ["(* GENERATED by props/c15.py:translate from /repo/lib/src/protocol/mux — do not edit. *)",
              "From Coq Require Import NArith List.", "Import ListNotations.", "Open Scope N_scope.", ""]
     for k in PARSER_CONSTS + H2_CONSTS + ["FLOOD_WINDOW_MS", "MAX_LOOP_ITERATIONS"]:
@@ -208,52 +377,105 @@ def translate():
 
 FLOOD_FIELDS = ["rst_stream_count", "ping_count", "settings_count", "empty_data_count",
                 "window_update_stream0_count", "continuation_count", "glitch_count"]
-# (counter, enclosing fn) -> minimum number of bump sites expected there
-FLOOD_SITES = {
-    ("rst_stream_count", "handle_rst_stream_frame"): 1,
-    ("ping_count", "handle_ping_frame"): 1,
-    ("settings_count", "handle_settings_frame"): 1,
-    ("empty_data_count", "handle_data_frame"): 1,
-    ("window_update_stream0_count", "handle_window_update_frame"): 1,
-    ("continuation_count", "handle_continuation_header_state"): 1,
-}
+# handler -> (threshold its counter is compared with in check_flood, conditions under which the frame is counted:
+# alternatives of patterns for the whole list of enclosing `if` heads; None = not examined)
+HANDLER_COUNTER = [
+    ("handle_rst_stream_frame", "max_rst_stream_per_window", [[]]),
+    ("handle_ping_frame", "max_ping_per_window", [[]]),
+    ("handle_settings_frame", "max_settings_per_window", [[]]),
+    ("handle_data_frame", "max_empty_data_per_window",
+     [["$d . payload . is_empty ( ) && ! $d . end_stream"], ["! $d . end_stream && $d . payload . is_empty ( )"],
+      ["$d . payload . len ( ) == 0 && ! $d . end_stream"]]),
+    ("handle_window_update_frame", "max_window_update_stream0_per_window",
+     [["$w . stream_id == 0"], ["$sid == 0"], ["0 == $w . stream_id"]]),
+    ("handle_continuation_header_state", "max_continuation_frames", None),
+]
+DEFAULT_COUNT_FIELD = {"max_rst_stream_per_window": "rst_stream_count", "max_ping_per_window": "ping_count",
+                       "max_settings_per_window": "settings_count", "max_empty_data_per_window": "empty_data_count",
+                       "max_window_update_stream0_per_window": "window_update_stream0_count",
+                       "max_continuation_frames": "continuation_count", "max_glitch_count": "glitch_count"}
 
 
-# conditions (normalised `if` heads) under which each windowed counter is bumped in its handler; the early
-# `return` of the ACK branches is pinned separately below
-FLOOD_GUARDS = {
-    "rst_stream_count": [],
-    "ping_count": [],
-    "settings_count": [],
-    "empty_data_count": ["if data.payload.is_empty() && !data.end_stream {"],
-    "window_update_stream0_count": ["if stream_id == 0 {"],
-    "continuation_count": None,   # inside the `match parser::frame_header(..)` arm: shape pinned by regex below
-}
-
-
-def _enclosing_guards(lines, fn_at, i):
-    """heads of the `if` blocks that enclose line i, within its function"""
-    fn = fn_at[i]
-    start = i
-    while start > 0 and fn_at[start - 1] == fn:
-        start -= 1
+def _if_heads(nf, upto):
+    """conditions of the `if` / `else if` blocks open at token offset `upto` of a normal form"""
+    toks = nf[:upto].split(" ")
     stack = []
-    for j in range(start, i):
-        ln = lines[j]
-        code = ln.split("//")[0]
-        for ch_i, ch in enumerate(code):
-            if ch == "{":
-                stack.append(code.strip() if code.strip().startswith(("if ", "} else if ", "else if ")) else None)
-            elif ch == "}":
-                if stack:
-                    stack.pop()
+    i = 0
+    cond_start = None
+    for i, t in enumerate(toks):
+        if t == "if" and (i == 0 or toks[i - 1] != "else" or True):
+            cond_start = i + 1
+        if t == "{":
+            if cond_start is not None and "let" not in toks[cond_start:cond_start + 1]:
+                stack.append(" ".join(toks[cond_start:i]))
+            else:
+                stack.append(None)
+            cond_start = None
+        elif t == "}":
+            if stack:
+                stack.pop()
+        elif t in (";",):
+            cond_start = None
     return [g for g in stack if g]
 
 
-def flood_sites(hs):
+def flood_sites(H, order):
+    """every handler counts its frame (by one, whatever its size) and runs check_flood right after"""
+    import rsfacts
     fails = []
-    code = hs.split("\n#[cfg(test)]\nmod tests")[0]
-    lines = code.split("\n")
+    fields = dict(DEFAULT_COUNT_FIELD)
+    if order:
+        for (cf, th) in order:
+            if th in fields:
+                fields[th] = cf
+    for (fn, th, guard_alts) in HANDLER_COUNTER:
+        F = re.escape(fields[th])
+        try:
+            nf = " " + H.body(fn) + " "
+        except rsfacts.Unreadable as ex:
+            fails.append("unreadable: h2.rs %s" % ex)
+            continue
+        direct = re.compile(r" self \. flood_detector \. %s (?:\+= 1|= self \. flood_detector \. %s \. (?:saturating|wrapping)_add \( 1 \)) ; " % (F, F))
+        m = direct.search(nf)
+        sized_bump = re.search(r" self \. flood_detector \. %s \+= (?!1 ;)" % F, nf)
+        if not m:
+            for hm in re.finditer(r" self \. flood_detector \. (\w+) \( \) ; ", nf):
+                try:
+                    hb = " " + H.body(hm.group(1)) + " "
+                except rsfacts.Unreadable:
+                    continue
+                if re.search(r" self \. %s (?:\+= 1|= self \. %s \. (?:saturating|wrapping)_add \( 1 \)) ; " % (F, F), hb):
+                    m = hm
+                    break
+        if not m:
+            if sized_bump:
+                fails.append("h2.rs: %s adds something else than 1 to %s (model: every qualifying frame counts for one, whatever its size)" % (fn, fields[th]))
+            else:
+                fails.append("unreadable: h2.rs no statement of %s adding 1 to the counter check_flood compares with %s (`self.flood_detector.%s += 1`, "
+                             "a saturating add, or a one-line helper of the detector) was recognised; the model counts every qualifying frame there "
+                             "(observed by the black-box tier: that counter at its threshold and one above)" % (fn, th, fields[th]))
+            continue
+        after = nf[m.end() - 1:]
+        chk = after.find(" check_flood_or_return ! ( self ) ;")
+        between = after[:chk] if chk >= 0 else after[:600]
+        if chk < 0 or len(between.split()) > 90 or re.search(r" return | reset_continuation | %s = 0 " % F, between):
+            fails.append("h2.rs: %s is bumped in %s but check_flood does not follow the bump" % (fields[th], fn))
+        if guard_alts is None:
+            continue
+        heads = _if_heads(nf, m.start() + 1)
+        sized = [g for g in heads if re.search(r"payload_len|\. len \( \)|is_empty \( \)|\bpayload\b", g)]
+        if th != "max_empty_data_per_window" and sized:
+            fails.append("h2.rs: %s is only bumped when %s: the count depends on the payload size (model: every such frame counts)" % (fields[th], " / ".join(sized)))
+            continue
+        ok = False
+        for alt in guard_alts:
+            if len(alt) == len(heads) and all(rsfacts.compile_pattern(p).fullmatch(" " + h + " ", 1) or rsfacts.compile_pattern(p).fullmatch(h + " ") for p, h in zip(alt, heads)):
+                ok = True
+        if not ok:
+            fails.append("h2.rs: %s is bumped in %s under the conditions %r, the model's `qualifying` says %r" % (fields[th], fn, heads, guard_alts[0]))
+    # every other place that bumps a windowed counter (glitches mostly) runs check_flood before going on
+    names = set(FLOOD_FIELDS) | set(fields.values())
+    lines = H.text.split("\n")
     fn_at = []
     cur = None
     for ln in lines:
@@ -261,21 +483,19 @@ def flood_sites(hs):
         if m:
             cur = m.group(1)
         fn_at.append(cur)
-    seen = {}
     for i, ln in enumerate(lines):
         m = re.search(r"self\.flood_detector\.(\w+)\s*(\+=\s*1|=\s*self\s*$|=\s*self\.flood_detector)", ln)
-        if not m or m.group(1) not in FLOOD_FIELDS:
+        if not m or m.group(1) not in names:
             continue
         field = m.group(1)
         fn = fn_at[i]
         # the unknown-setting glitch bump is inside the settings loop: checked by the next frame's check
-        if field == "glitch_count" and fn == "handle_settings_frame":
+        if field == fields["max_glitch_count"] and fn == "handle_settings_frame":
             continue
-        # look ahead for the check before any `return`, closing of the fn, or a reset of the counter
         ok = False
         for j in range(i + 1, min(i + 40, len(lines))):
             l2 = lines[j].strip()
-            if l2.startswith("//") or l2.startswith("debug_assert") or l2 == "":
+            if l2.startswith("debug_assert") or l2 == "":
                 continue
             if "check_flood_or_return!(self)" in l2:
                 ok = True
@@ -284,22 +504,6 @@ def flood_sites(hs):
                 break
         if not ok:
             fails.append("h2.rs:%d: %s is bumped in %s but check_flood does not follow the bump" % (i + 1, field, fn))
-        # what decides whether the frame is counted: the conditions of the blocks enclosing the bump, back to
-        # the start of the function.  Model (`qualifying`): type, flags, stream id -- never the payload length,
-        # except for the empty-DATA counter, which is about exactly that.
-        guards = _enclosing_guards(lines, fn_at, i)
-        want = FLOOD_GUARDS.get(field)
-        if want is not None and fn in (f for (c, f) in FLOOD_SITES if c == field):
-            sized = [g for g in guards if re.search(r"payload_len|\.len\(\)|is_empty\(\)|payload\b", g)]
-            if field != "empty_data_count" and sized:
-                fails.append("h2.rs:%d: %s is only bumped when %s: the count depends on the payload size (model: every such frame counts)" % (i + 1, field, " / ".join(sized)))
-            norm = [re.sub(r"\s+", " ", g) for g in guards]
-            if sorted(norm) != sorted(want):
-                fails.append("h2.rs:%d: %s is bumped under the conditions %r, the model's `qualifying` says %r" % (i + 1, field, norm, want))
-        seen[(field, fn)] = seen.get((field, fn), 0) + 1
-    for k, n in FLOOD_SITES.items():
-        if seen.get(k, 0) < n:
-            fails.append("h2.rs: %s is no longer bumped in %s (flood accounting site removed)" % k)
     return fails
 
 
